@@ -4,13 +4,19 @@ from collections.abc import Sequence
 from pathlib import Path
 
 from pytestarch.eval_structure.types import Import
+from pytestarch.eval_structure_generation.file_import.import_filter import (
+    is_internal_module,
+)
 
 
 class ImporteeModuleCalculator:
     """Adds all parent modules of imported modules if they are not yet part of the modules list."""
 
-    def __init__(self, root_path: Path) -> None:
+    def __init__(
+        self, root_path: Path, internal_module_prefix: str | None = None
+    ) -> None:
         self._root_path = root_path
+        self._internal_module_prefix = internal_module_prefix
 
     def calculate_importee_modules(
         self,
@@ -32,10 +38,17 @@ class ImporteeModuleCalculator:
         for imp in imports:
             importee = imp.importee()
 
-            if str(self._root_path) not in importee:
+            if not self._is_internal(importee):
                 extended_modules.update(self._calculate_parent_modules(imp))
 
         return list(extended_modules)
+
+    def _is_internal(self, importee: str) -> bool:
+        # internal modules have already been found when parsing the source files
+        if self._internal_module_prefix is None:
+            return False
+
+        return is_internal_module(importee, self._internal_module_prefix)
 
     def _calculate_parent_modules(self, imp: Import) -> set[str]:
         modules = {imp.importee()}
